@@ -18,11 +18,27 @@ import (
 )
 
 type Replay struct {
-	Kind  string   `json:"kind"`
-	Pre   int      `json:"pre"`
-	Progs [][]Proc `json:"progs"`
-	Picks []int    `json:"picks"`
-	Ops   []ROp    `json:"ops,omitempty"`
+	Kind   string   `json:"kind"`
+	Pre    int      `json:"pre"`
+	Progs  [][]Proc `json:"progs"`
+	Picks  []int    `json:"picks"`
+	Ops    []ROp    `json:"ops,omitempty"`
+	Script []Phase  `json:"script,omitempty"`
+}
+
+// Phase is one element of a scripted (adaptive) schedule: actor A is stepped while it is
+// schedulable until it parks with code Until (-1: until it finishes or is seen spinning), at most
+// Max steps (0: 40).  The Go map order decides how many scheduler steps a visit needs before it
+// arrives somewhere, so a scenario such as "the visitor is inside its first callback, now delete
+// the other partition" cannot be written as a fixed list of picks.
+// Fuse: the steps of this phase are not followed by the re-validation of the spinners and the
+// table read; they are merged with the next scheduler step into one group of observations (the
+// spinners then see the effects of both steps at once, in whatever real-time order they wake up).
+type Phase struct {
+	A     int  `json:"a"`
+	Until int  `json:"until"`
+	Max   int  `json:"max,omitempty"`
+	Fuse  bool `json:"fuse,omitempty"`
 }
 
 type event struct {
@@ -70,6 +86,9 @@ type result struct {
 	steps    int
 	finished bool
 	leaks    int
+	fused    int
+	scriptSteps int
+	recreate int // a tag line got a new source while a waiting visit was under way
 }
 
 func (r *result) fail(class, detail string) {
@@ -121,6 +140,38 @@ func (w *world) oracle(res *result, prev, cur []row, stepped []*actorT) {
 	if nex > res.maxExcl {
 		res.maxExcl = nex
 	}
+	// A retry loop waits for an exclusive lock to go away.  At this point nobody runs (every actor
+	// is parked, finished, or was seen asleep in a retry loop after it passed the service lock on
+	// this very table), and neither a retry iteration nor a released spinner on its way to its
+	// next park sets or clears an exclusive flag: so some present partition must be exclusive.
+	// Otherwise the actor waits for something that is not in the index any more, i.e. for ever.
+	for _, a := range w.actors {
+		if a.status == stSpinning && nex == 0 {
+			res.fail("spin-without-locked-partition", fmt.Sprintf("actor %d (%s) is in a tindex retry loop although no partition of the index is exclusively locked: it waits for a descriptor that was removed", a.idx, a.cur.K))
+		}
+	}
+	// distribution: a tag line got a new source id while a waiting visit was under way
+	for _, r := range cur {
+		if _, ok := pm[r.idx]; ok {
+			continue
+		}
+		again := false
+		for s, t := range w.srcTag {
+			if t == r.tag && w.srcIdx[s] != r.idx {
+				again = true
+			}
+		}
+		if !again {
+			continue
+		}
+		for _, a := range w.actors {
+			wv := (a.cur.K == "visit" && !a.cur.Skip) || a.cur.K == "query"
+			if wv && (a.status == stSpinning || (a.status == stParked && a.lastPark.code == 2)) {
+				res.recreate++
+				break
+			}
+		}
+	}
 	for _, r := range prev {
 		if _, ok := cm[r.idx]; !ok {
 			res.deleted++
@@ -153,20 +204,52 @@ func (w *world) oracle(res *result, prev, cur []row, stepped []*actorT) {
 }
 
 // step resumes actor a, waits for its outcome, re-validates every spinning actor, records the
-// events and the table, runs the oracle
-func (w *world) step(res *result, a *actorT, prev []row) ([]row, error) {
+// events and the table, runs the oracle.  fuse: only resume and wait; the observation is kept in
+// w.pending and becomes part of the group of the next step.
+func (w *world) step(res *result, a *actorT, prev []row, fuse bool) ([]row, error) {
 	a.resume <- struct{}{}
 	if err := w.waitOutcome(a); err != nil {
 		return nil, err
 	}
-	group := []*actorT{a}
-	dead := a.status == stDead
+	res.picks = append(res.picks, a.idx)
+	res.steps++
+	if fuse && a.status != stDead {
+		w.pending = append(w.pending, a)
+		res.fused++
+		return prev, nil
+	}
+	return w.settle(res, append(w.pending, a), prev)
+}
+
+// settle closes a group of resumed actors: spinners are re-validated, the table is read, the
+// observations are recorded, the oracle runs
+func (w *world) settle(res *result, group []*actorT, prev []row) ([]row, error) {
+	w.pending = nil
+	inGroup := func(b *actorT) bool {
+		for _, c := range group {
+			if c == b {
+				return true
+			}
+		}
+		return false
+	}
+	dead := false
+	for _, b := range group {
+		if b.status == stDead {
+			dead = true
+		}
+	}
+	last := group[len(group)-1] // the actor resumed last: its observation is fresh
 	for _, b := range w.actors {
-		if !dead && b != a && b.status == stSpinning {
+		if !dead && b != last && b.status == stSpinning {
+			// (also an earlier member of a fused group that was seen spinning: what it saw may be stale)
+			wasIn := inGroup(b)
 			if err := w.recheck(b); err != nil {
 				return nil, err
 			}
-			group = append(group, b)
+			if !wasIn {
+				group = append(group, b)
+			}
 			dead = b.status == stDead
 		}
 	}
@@ -181,8 +264,6 @@ func (w *world) step(res *result, a *actorT, prev []row) ([]row, error) {
 			}
 		}
 		res.groups = append(res.groups, g)
-		res.picks = append(res.picks, a.idx)
-		res.steps++
 		return prev, nil
 	}
 	cur, err := w.snapshot()
@@ -203,8 +284,6 @@ func (w *world) step(res *result, a *actorT, prev []row) ([]row, error) {
 	}
 	res.groups = append(res.groups, g)
 	w.oracle(res, prev, cur, group)
-	res.picks = append(res.picks, a.idx)
-	res.steps++
 	return cur, nil
 }
 
@@ -218,9 +297,9 @@ func (w *world) schedulable() []*actorT {
 	return l
 }
 
-// runCase executes a schedule: picks first (an unschedulable pick ends the prefix), then a
-// round-robin drain until every actor has finished.
-func runCase(pre int, progs [][]Proc, picks []int, choose func(n int) int, maxSteps int) (*result, error) {
+// runCase executes a schedule: the script (if any), then the picks (an unschedulable pick ends the
+// prefix), then random choices, then a round-robin drain until every actor has finished.
+func runCase(pre int, progs [][]Proc, script []Phase, picks []int, choose func(n int) int, maxSteps int) (*result, error) {
 	w, err := newWorld(pre, progs)
 	if err != nil {
 		return nil, err
@@ -232,8 +311,8 @@ func runCase(pre int, progs [][]Proc, picks []int, choose func(n int) int, maxSt
 		return nil, err
 	}
 	dead := false
-	stepA := func(a *actorT) error {
-		cur, err := w.step(res, a, prev)
+	stepF := func(a *actorT, fuse bool) error {
+		cur, err := w.step(res, a, prev, fuse)
 		if err != nil {
 			return err
 		}
@@ -245,6 +324,34 @@ func runCase(pre int, progs [][]Proc, picks []int, choose func(n int) int, maxSt
 		}
 		return nil
 	}
+	stepA := func(a *actorT) error { return stepF(a, false) }
+	for _, ph := range script {
+		if ph.A < 0 || ph.A >= len(w.actors) {
+			continue
+		}
+		a := w.actors[ph.A]
+		max := ph.Max
+		if max <= 0 {
+			max = 40
+		}
+		for n := 0; n < max && !dead && res.viol == nil && a.status == stParked; n++ {
+			if err := stepF(a, ph.Fuse); err != nil {
+				return nil, err
+			}
+			if a.status == stParked && ph.Until >= 0 && a.lastPark.code == ph.Until {
+				break
+			}
+		}
+	}
+	if len(w.pending) > 0 {
+		// a fused step that nothing followed
+		cur, err := w.settle(res, w.pending, prev)
+		if err != nil {
+			return nil, err
+		}
+		prev = cur
+	}
+	res.scriptSteps = len(res.picks)
 	for _, p := range picks {
 		if dead || res.viol != nil {
 			break
@@ -328,7 +435,7 @@ func mkCase(rp Replay, choose func(n int) int, maxSteps int, stream string) (*Ca
 	if rp.Kind == "raw" {
 		return mkRaw(rp)
 	}
-	res, err := runCase(rp.Pre, rp.Progs, rp.Picks, choose, maxSteps)
+	res, err := runCase(rp.Pre, rp.Progs, rp.Script, rp.Picks, choose, maxSteps)
 	if err != nil {
 		return nil, err
 	}
@@ -345,7 +452,7 @@ func mkCase(rp Replay, choose func(n int) int, maxSteps int, stream string) (*Ca
 		evs[i] = groupCoq(g)
 	}
 	out := rp
-	out.Picks = res.picks
+	out.Picks = res.picks[res.scriptSteps:] // a replay runs the script again (adaptive), then these
 	tags := []string{fmt.Sprintf("actors:%d", len(rp.Progs))}
 	if res.spins > 0 {
 		tags = append(tags, "spin-observed")
@@ -358,6 +465,12 @@ func mkCase(rp Replay, choose func(n int) int, maxSteps int, stream string) (*Ca
 	}
 	if res.leaks > 0 {
 		tags = append(tags, "journal-open-failed")
+	}
+	if res.recreate > 0 {
+		tags = append(tags, "recreated-under-waiting-visit")
+	}
+	if res.fused > 0 {
+		tags = append(tags, "fused-steps")
 	}
 	if res.finished {
 		tags = append(tags, "quiescent")
@@ -372,7 +485,7 @@ func mkCase(rp Replay, choose func(n int) int, maxSteps int, stream string) (*Ca
 	}, nil
 }
 
-const rule = "schedules of 1-4 client actors (Write/GetJournal brackets, GetJournalTags brackets, the four Visit flavours with early abort, the real GetJournals with failing journal opens and limits, the real Truncate with deleteJournal/truncateGlobally) over 2-3 tag lines on the real tindex service: a corpus of fixed witnesses, every schedule of <= 6 scheduler steps for 2 actors x 2 partitions for a set of program pairs (then drained round-robin), and random schedules up to 60 steps for 3-4 actors; non-trivial iff >= 4 scheduler steps and (>= 2 actors or a spin, an exclusive lock or a deletion was observed)"
+const rule = "schedules of 1-4 client actors (Write/GetJournal brackets, GetJournalTags brackets, the four Visit flavours with early abort, the real GetJournals with failing journal opens and limits, the real Truncate with deleteJournal/truncateGlobally) over 2-3 tag lines on the real tindex service: a corpus of fixed witnesses, every schedule of <= 6 scheduler steps for 2 actors x 2 partitions for a set of program pairs (then drained round-robin), random schedules up to 60 steps for 3-4 actors, and scripted (adaptive) schedules of the family \"a partition of a waiting visit's snapshot is deleted and its tag line re-created under a new source id while the visit is parked in a callback / blocked on an exclusively locked partition / spinning (Delete and GetOrCreateJournal fused into one observation group)\", continued at random; non-trivial iff >= 4 scheduler steps and (>= 2 actors or a spin, an exclusive lock or a deletion was observed)"
 
 func main() {
 	Main("C14", "C14K", func(c *Ctx) error {
@@ -414,6 +527,11 @@ func main() {
 		}
 		for i := 0; i < c.N(200); i++ {
 			jobs = append(jobs, job{rp: genRaw(c.Rng.Fork()), stream: "raw"})
+		}
+		// (generated last: the streams above are the same cases as before this stream existed)
+		for i := 0; i < c.N(150); i++ {
+			r := c.Rng.Fork()
+			jobs = append(jobs, job{rp: genRecreate(r), rng: r, max: 20, stream: "recreate"})
 		}
 		res := make([]*Case, len(jobs))
 		errs := make([]error, len(jobs))
